@@ -7,6 +7,7 @@ package main
 import (
 	"fmt"
 	"strings"
+	"unicode"
 
 	"github.com/xelaj/mtproto/telegram/deeplinks"
 	"github.com/xelaj/mtproto/zverif/freepass"
@@ -48,8 +49,8 @@ func unreserved(s string) bool {
 		return false
 	}
 	for _, c := range s {
-		if !(c >= 'a' && c <= 'z' || c >= 'A' && c <= 'Z' || c >= '0' && c <= '9' || c == '_' || c == '-') {
-			return false
+		if !(c >= 'a' && c <= 'z' || c >= 'A' && c <= 'Z' || c >= '0' && c <= '9' || c == '_' || c == '-' || c > 127 && unicode.IsLetter(c)) {
+			return false // (letters outside ASCII written as themselves are plain username characters too)
 		}
 	}
 	return true
@@ -185,7 +186,7 @@ func main() {
 	schemes := []string{"", "http://", "https://", "HTTP://", "tg://", "ftp://", "//"}
 	hosts := append(append([]string{}, reserved...), "T.ME", "t.me.", "t.me.evil.com", "evilt.me", "localhost", "")
 	ports := []string{"", ":443", ":80", ":"}
-	segA := []string{"", "BotFather", "joinchat", "AbC_123", "abc_123", "BOTFATHER", "a-b", "%41bc", "юзер", "a b", "..", "{username}"}
+	segA := []string{"", "BotFather", "joinchat", "AbC_123", "abc_123", "BOTFATHER", "Юзер", "ÜNAL", "a-b", "%41bc", "юзер", "a b", "..", "{username}"}
 	tails := []string{"", "?start=1", "#f", "?a=b#c", "?start=a;b", "?x=%zz"}
 	maxSeg := 2
 	if run.Thorough() {
